@@ -103,3 +103,16 @@ Theorem C20_normalise_single_pass :
   normalise [CR; CR; LF] = [CR; LF] /\ normalise (normalise [CR; CR; LF]) = [LF].
 Proof. exact normalise_not_idempotent_witness. Qed.
 Print Assumptions C20_normalise_single_pass.
+
+(* The rest of the directory (Model/Golden.v dirworld: the golden file's path together with every
+   other entry of its directory): Golden::new, Golden::assert and a whole session leave every
+   other entry exactly as it was - whatever UPDATE_GOLDEN holds, whether the comparison passes
+   or not - and what they do to the golden file itself is what the one-path theorems above say. *)
+Theorem C20_other_files_untouched : forall d e got g,
+  others (fst (dir_new d)) = others d /\
+  others (fst (dir_assert d g got)) = others d /\
+  others (fst (dir_session d e got)) = others d /\
+  dw (fst (dir_session d e got)) = fst (session (dw d) e got) /\
+  snd (dir_session d e got) = snd (session (dw d) e got).
+Proof. exact dir_untouched_all. Qed.
+Print Assumptions C20_other_files_untouched.
